@@ -124,6 +124,21 @@ func vhCheckReads(tag string, db *DB, rows []vhRow) {
 		probe.Initialize(rows[i].uuid)
 		ok, err := db.Exist(probe)
 		vAssert(tag+".exist", err == nil && ok)
+		g2, err := db.Get(probe)
+		vAssert(tag+".getobj.ok", err == nil)
+		if err == nil {
+			vAssert(tag+".getobj.fields", vhFieldsEq(g2.(*vObj), &rows[i].o) && g2.UUID() == rows[i].uuid)
+		}
+	}
+	var assigned []*vObj
+	vAssert(tag+".assignall.ok", db.AssignAll(&vObj{}, &assigned) == nil)
+	vAssert(tag+".assignall.len", len(assigned) == len(rows))
+	for _, o := range assigned {
+		k := vhFindRow(rows, o.UUID())
+		vAssert(tag+".assignall.member", k >= 0)
+		if k >= 0 {
+			vAssert(tag+".assignall.fields", vhFieldsEq(o, &rows[k].o))
+		}
 	}
 	// an identifier that was never stored: not found, every time
 	for k := 0; k < 2; k++ {
